@@ -467,11 +467,12 @@ def readPart (file : Array UInt8) (fh : FileHeader) (md : ModelData) (lodIx : Na
   let mesh ← idx md.meshes j
   let vertices ← readVertices file lod mesh decl
   let ioff ← idx3 fh.indexOffsets lodIx
-  let s2 ← mulU32 mesh.startIndex 2
-  let ia ← addU32 ioff s2
+  -- `index_offsets[i] as u64 + start_index as u64 * 2`: 64-bit since the fix "compute model vertex
+  -- and index buffer addresses in 64 bits" — the sum of two `u32`-sized terms cannot overflow, and a
+  -- seek behind the end of the buffer succeeds (an empty index list is then read as empty)
   -- `for _ in 0..index_count { indices.push(cursor.read_le::<u16>().ok()?) }`
   let indices ←
-    match readAt file ia.toNat (2 * mesh.indexCount.toNat) with
+    match readAt file (ioff.toNat + mesh.startIndex.toNat * 2) (2 * mesh.indexCount.toNat) with
     | some b => pure (leU16s b)
     | none => (.error .fail : R (List UInt16))
   let submeshes ← readSubmeshes md mesh
